@@ -1,6 +1,7 @@
 package rules
 
 import (
+	"fmt"
 	"go/token"
 	"strings"
 
@@ -168,6 +169,128 @@ func c02ChainLoop(c *Ctx, r *R) {
 			return in == src.Instr || isSuccessReturn(in)
 		}, cut, "the chain advances (and LoadState returns) only after VerifyNewState accepted the next state", "LoadState can advance past / return after a policy entry whose VerifyNewState did not succeed")
 	}
+	// the chain covers every policy entry after the first: the loop ranges over
+	// FindPolicyEntriesInRange(first, requested)[1:], the state under test is loaded for the loop's
+	// own element, the only filter in front of it is `entry.GetRefName() == PolicyRef`, and the
+	// verified state advances to the accepted one
+	if src, _, isCall := eng.RootCall(eng.Roots(under1)[0]); isCall {
+		elemOK, rangeOK := false, false
+		var elem ssa.Value
+		for _, root := range eng.Roots(src.Arg(1)) {
+			u, ok := root.(*ssa.UnOp)
+			if !ok {
+				continue
+			}
+			ia, ok := u.X.(*ssa.IndexAddr)
+			if !ok {
+				continue
+			}
+			elem = root
+			for _, sr := range eng.Roots(ia.X) {
+				sl, ok := sr.(*ssa.Slice)
+				if !ok {
+					continue
+				}
+				elemOK = true
+				lo, isC := eng.ConstInt(sl.Low)
+				if !isC || lo != 1 || sl.High != nil {
+					continue
+				}
+				for _, rr := range eng.Roots(sl.X) {
+					if k, idx, ok := eng.RootCall(rr); ok && idx == 0 && k.Method() == "FindPolicyEntriesInRange" &&
+						eng.PCall("(internal/policy.searcher).FindFirstPolicyEntry", 0)(k.Arg(0)) && eng.PParam("requestedEntry")(k.Arg(1)) {
+						rangeOK = true
+					}
+				}
+			}
+		}
+		r.Check(elemOK && rangeOK, "chain-covers-range", src.Pos(), "the chain loop ranges over FindPolicyEntriesInRange(first, requested)[1:] and loads each element",
+			"the chain loop does not load every element of FindPolicyEntriesInRange(firstPolicyEntry, requestedEntry)[1:] (bounds or arguments changed): some policy state would be skipped by the chain of trust")
+		if elem != nil {
+			isPolicy := eng.RelEdges(fn, token.EQL, eng.PMethod("GetRefName", func(v ssa.Value) bool { return sameObj(elem)(v) }), eng.PStr(refPolicy))
+			allowed := 0
+			var extra []string
+			hdrLen := eng.PLen(eng.PAny())
+			for _, g := range eng.GuardsAt(src.Block()) {
+				// guards inside the loop: those evaluated in blocks dominated by the loop test
+				inLoop := false
+				for _, e := range eng.RelEdges(fn, token.LSS, eng.PAny(), hdrLen) {
+					if eng.EdgeDominates(e, g.Edge.From) || e.To() == g.Edge.From {
+						inLoop = true
+					}
+				}
+				if !inLoop {
+					continue
+				}
+				ok := false
+				for _, e := range isPolicy {
+					if e == g.Edge {
+						ok = true
+						allowed++
+					}
+				}
+				if !ok {
+					extra = append(extra, c.Rel(eng.InstrPos(g.Edge.From.Instrs[len(g.Edge.From.Instrs)-1])))
+				}
+			}
+			r.Check(allowed >= 1 && len(extra) == 0, "chain-filter", src.Pos(), "inside the loop the only condition in front of the load is entry.GetRefName() == PolicyRef",
+				"the chained load is not guarded by exactly `entry.GetRefName() == PolicyRef` (polarity changed or another filter added at "+strings.Join(extra, ", ")+"): policy entries can be skipped by the chain of trust")
+		}
+		if elem != nil {
+			// a skipped (non-policy) entry moves on to the next element: it never ends the walk
+			done := rangeDoneEdges(fn, eng.PAny())
+			okSkip := true
+			for _, e := range eng.RelEdges(fn, token.NEQ, eng.PMethod("GetRefName", func(v ssa.Value) bool { return sameObj(elem)(v) }), eng.PStr(refPolicy)) {
+				if p := eng.FindPath(e.To(), 0, isSuccessReturn, eng.NewCut().AddEdges(done...)); p != nil {
+					okSkip = false
+				}
+			}
+			r.Check(okSkip && len(done) > 0, "chain-skip-continues", src.Pos(), "skipping a non-policy entry continues with the next element",
+				"after skipping a non-policy entry LoadState can return without the loop having been exhausted (break instead of continue): later policy entries escape the chain of trust")
+		}
+		adv := false
+		for _, root := range eng.Roots(vk.Recv()) {
+			if k, _, ok := eng.RootCall(root); ok && k.Instr == src.Instr {
+				adv = true
+			}
+		}
+		r.Check(adv, "chain-advances", vk.Pos(), "the verified state advances to the accepted state (each state is checked against its predecessor)",
+			"VerifyNewState's receiver never becomes the accepted state: every policy state is checked against the first root of trust only, so a rotated-out root can still sign new policy")
+	}
+	// the first-entry shortcut (no chain) is taken only when the requested entry IS the first policy entry
+	same := eng.BoolEdges(fn, func(v ssa.Value) bool {
+		k, _, ok := eng.RootCall(v)
+		if !ok || k.Method() != "Equal" {
+			return false
+		}
+		a := eng.PMethod("GetID", eng.PCall("(internal/policy.searcher).FindFirstPolicyEntry", 0))
+		b := func(v ssa.Value) bool {
+			for _, root := range eng.Roots(v) {
+				if bk, _, ok := eng.RootCall(root); ok && bk.Method() == "Bytes" {
+					return eng.PMethod("GetID", eng.PParam("requestedEntry"))(bk.Recv())
+				}
+			}
+			return eng.PMethod("GetID", eng.PParam("requestedEntry"))(v)
+		}
+		return (a(k.Recv()) && b(k.Arg(0))) || (b(k.Recv()) && a(k.Arg(0)))
+	}, true)
+	for _, ret := range eng.Returns(fn) {
+		if !isSuccessReturn(ret) {
+			continue
+		}
+		k, _, isCall := eng.RootCall(eng.Roots(eng.RetVal(ret, 0))[0])
+		if !isCall || k.Name() != fnLSFE || !eng.PParam("requestedEntry")(k.Arg(1)) || k.Block() == ret.Block() {
+			continue
+		}
+		dom := false
+		for _, e := range same {
+			if eng.EdgeDominates(e, ret.Block()) || e.To() == ret.Block() {
+				dom = true
+			}
+		}
+		r.Check(dom, "shortcut-only-for-first", pos(ret), "the requested state is returned without the chain walk only when it is the first policy entry",
+			"LoadState returns the requested state after self-verification only, without the chain walk, on a path where the requested entry is not known to be the first policy entry")
+	}
 	// returned state for PolicyRef requests passed Verify
 	sv := eng.CallsTo(fn, false, fnSV)
 	r.Check(len(sv) >= 2, "self-verify-sites", fn.Pos(), "LoadState self-verifies the returned state in both places (first entry, later entry)", "LoadState has fewer than two State.Verify calls (first-entry path and chained path)")
@@ -231,6 +354,80 @@ func c02ChainLoop(c *Ctx, r *R) {
 	// pinning is skipped only when no principals were given
 	skip := eng.RelEdges(fn, token.EQL, eng.PLen(eng.PField("InitialRootPrincipals", nil)), eng.PInt(0))
 	r.Check(len(skip) == 2, "pin-skipped-only-if-none", fn.Pos(), "pinning skipped only when len(InitialRootPrincipals) == 0", "the test that decides whether to pin the first root is not len(InitialRootPrincipals) == 0")
+	// polarity and placement: every success return lies behind either the `no principals given`
+	// edge or the nil edge of a pinned verification (the bypass option has its own return)
+	pinCut := eng.NewCut().AddEdges(skip...)
+	for _, al := range allocsOf(fn, "SignatureVerifier") {
+		for _, v := range eng.CallsTo(fn, false, sigVerify) {
+			for _, root := range eng.Roots(v.Recv()) {
+				if root == ssa.Value(al) {
+					v.OKPoints(pinCut)
+				}
+			}
+		}
+	}
+	// Exits that hand back loadStateForEntry's result directly (tail calls) carry no verification of
+	// the returned state. They exist only where documented: no applied policy yet
+	// (errors.Is(err, ErrPolicyNotFound) of FindFirstPolicyEntry), the requested entry is an ancestor
+	// of the first policy entry (KnowsCommit(first.GetID(), requested.GetID()) true edge), or — after
+	// the applied chain was verified — the request is not for PolicyRef (a staging state).
+	notFound := eng.BoolEdges(fn, func(v ssa.Value) bool {
+		k, _, ok := eng.RootCall(v)
+		if !ok || k.Name() != "errors.Is" {
+			return false
+		}
+		g := eng.GlobalLoad(k.Arg(1))
+		return g != nil && g.Name() == "ErrPolicyNotFound" && eng.AnyRootFromCall(k.Arg(0), 1, "(internal/policy.searcher).FindFirstPolicyEntry")
+	}, true)
+	isFirst := eng.PCall("(internal/policy.searcher).FindFirstPolicyEntry", 0)
+	predates := eng.BoolEdges(fn, func(v ssa.Value) bool {
+		k, _, ok := eng.RootCall(v)
+		return ok && k.Method() == "KnowsCommit" && eng.PMethod("GetID", isFirst)(k.Arg(0)) && eng.PMethod("GetID", eng.PParam("requestedEntry"))(k.Arg(1))
+	}, true)
+	notPolicyRef := eng.RelEdges(fn, token.NEQ, eng.PMethod("GetRefName", eng.PParam("requestedEntry")), eng.PStr(refPolicy))
+	domBy := func(es []eng.Edge, b *ssa.BasicBlock) bool {
+		for _, e := range es {
+			if eng.EdgeDominates(e, b) || e.To() == b {
+				return true
+			}
+		}
+		return false
+	}
+	isTail := func(ret *ssa.Return) bool {
+		if k, _, isCall := eng.RootCall(eng.RetVal(ret, 0)); isCall && k.Name() == "internal/policy.loadStateForEntry" {
+			if ek, _, isC := eng.RootCall(eng.Strip(eng.RetErr(ret))); isC && ek.Instr == k.Instr {
+				return true
+			}
+		}
+		return false
+	}
+	nEarly, nStaging := 0, 0
+	for _, ret := range eng.Returns(fn) {
+		if !isTail(ret) {
+			continue
+		}
+		switch {
+		case domBy(notFound, ret.Block()) || domBy(predates, ret.Block()):
+			nEarly++
+			r.Ok("unverified-exit-documented", pos(ret), "an unverified state is handed back early only when no policy was applied yet or the requested entry predates the first applied policy")
+		case domBy(notPolicyRef, ret.Block()):
+			nStaging++
+			r.Ok("unverified-exit-documented", pos(ret), "after the chain walk an unverified state is handed back only for a request that is not for the policy reference")
+		default:
+			r.Bad("unverified-exit-documented", pos(ret), "LoadState returns loadStateForEntry's state without verification on a path that is none of: no applied policy yet; requested entry is an ancestor of the first policy entry (KnowsCommit(first, requested) true edge); request not for the policy reference")
+		}
+	}
+	r.Check(nEarly+nStaging >= 1, "unverified-exits", fn.Pos(), fmt.Sprintf("%d early and %d staging unverified exits, all documented", nEarly, nStaging), "no unverified exit recognised in LoadState (the rule matches nothing; re-anchor)")
+	verifiedReturn := func(in ssa.Instruction) bool {
+		ret, ok := in.(*ssa.Return)
+		if !ok || !isSuccessReturn(in) {
+			return false
+		}
+		return !(isTail(ret) && (domBy(notFound, ret.Block()) || domBy(predates, ret.Block())))
+	}
+	mustPass(c, r, "pin-before-use", fn, verifiedReturn, pinCut,
+		"a verified policy state is returned only after the pinned-root verification succeeded or no principals were pinned",
+		"LoadState can return a verified state although InitialRootPrincipals were given and the first root was not verified against them (test inverted or verification bypassed)")
 }
 
 func overlapsRoots(a, b ssa.Value) bool {
